@@ -648,6 +648,7 @@ impl Exec {
         self.inst.worker_gate.open();
         self.inst.sweeper_gate.open();
         let _ = catch_unwind(AssertUnwindSafe(|| self.cache.shutdown()));
+        if let Some(prelude_cache) = self.prelude_cache.take() { let _ = catch_unwind(AssertUnwindSafe(|| prelude_cache.shutdown())); }
         verif::install(None);
     }
 
